@@ -206,7 +206,8 @@ pub fn run(tier: &str) -> i32 {
     let findings: Mutex<Vec<Finding>> = Mutex::new(vec![]);
     let outcomes: Mutex<BTreeSet<String>> = Mutex::new(BTreeSet::new());
     let stats = Mutex::new((0u64, 0u64, 0u64)); // (mid-record cuts, boundary cuts, append checks)
-    let (done, timed_out) = par_for(jobs.len(), threads(), deadline, |i| {
+    let required_core = jobs.iter().take_while(|j| j.shape < 8).count();
+    let (done, timed_out) = crate::par::par_for_core(jobs.len(), required_core, threads(), deadline, |i| {
         let job = &jobs[i];
         let p = &prepared[job.shape];
         let sh = &shapes[job.shape];
